@@ -28,14 +28,16 @@ ValAt(u) == IF u % 2 = 0 THEN 100 + (u \div 2) ELSE 200 + ((u - 1) \div 2)
 
 Front(t) == SubSeq(t, 1, Len(t) - 1)
 
-(* the projected view: cells are now units of short *)
+(* the projected view: cells are now units of short.  The suffixes name the value category through which   *)
+(* the cast is reached in the code (_const: a const view; _rv: a temporary view) -- the library has a       *)
+(* separate overload for each, and the requirement is the same for all of them.                             *)
 CastF(v, c) ==
-  CASE c \in {"member_a", "member_a_const"} -> Mk(v.shape, v.first, LAMBDA t : UnitA(v.cell[t]))
-    [] c = "member_b"   -> Mk(v.shape, v.first, LAMBDA t : UnitB(v.cell[t]))
+  CASE c \in {"member_a", "member_a_const", "member_a_rv"} -> Mk(v.shape, v.first, LAMBDA t : UnitA(v.cell[t]))
+    [] c \in {"member_b", "member_b_const", "member_b_rv"} -> Mk(v.shape, v.first, LAMBDA t : UnitB(v.cell[t]))
     \* reinterpret_array_cast<int>(): the whole record as one 32-bit element, in place
-    [] c \in {"reint_int", "reint_int_const"}  -> Mk(v.shape, v.first, LAMBDA t : UnitA(v.cell[t]))
+    [] c \in {"reint_int", "reint_int_const", "reint_int_rv"}  -> Mk(v.shape, v.first, LAMBDA t : UnitA(v.cell[t]))
     \* reinterpret_array_cast<short>(2): a trailing dimension of size 2 over each record's units
-    [] c \in {"reint_short2", "reint_short2_const"} -> Mk(v.shape \o <<2>>, v.first \o <<0>>, LAMBDA t : 2 * v.cell[Front(t)] + t[Len(t)])
+    [] c \in {"reint_short2", "reint_short2_const", "reint_short2_rv"} -> Mk(v.shape \o <<2>>, v.first \o <<0>>, LAMBDA t : 2 * v.cell[Front(t)] + t[Len(t)])
     \* identity on element identity
     \* element_transformed with a function returning a reference to member b: designates that member
     [] c = "transformed_refb" -> Mk(v.shape, v.first, LAMBDA t : UnitB(v.cell[t]))
@@ -44,8 +46,9 @@ CastF(v, c) ==
 
 (* kind of value read through the projected view *)
 ValKind(c) ==
-  CASE c \in {"member_a", "member_a_const", "member_b", "reint_short2", "reint_short2_const", "transformed_refb"} -> "short"
-    [] c \in {"reint_int", "reint_int_const"} -> "int"
+  CASE c \in {"member_a", "member_a_const", "member_a_rv", "member_b", "member_b_const", "member_b_rv",
+                 "reint_short2", "reint_short2_const", "reint_short2_rv", "transformed_refb"} -> "short"
+    [] c \in {"reint_int", "reint_int_const", "reint_int_rv"} -> "int"
     [] c \in {"static_const", "const_cast", "as_const", "convert_array"} -> "record_a"   \* observed through its member a
     [] c = "transformed_a1" -> "lazy_a_plus_1"
 
